@@ -285,6 +285,8 @@ class Machine(object):
         c.core_state[p], c.core_app[p] = state, app
         self.sync_vcpu(c)
 
+    unroutable_replies = 0
+
     def attach(self, netw, host, eth_chip=(0, 0)):
         self.eth_of_host[host] = eth_chip
         netw.add_host(host, self.handle)
@@ -320,6 +322,15 @@ class Machine(object):
         else:
             rc, args, rdata = self.execute(chip, p, req["cmd"], a, payload)
         reply = simnet.make_reply(req, rc, args, rdata, src=(dx, dy))
+        # SDP routes the reply to the request's source address.  The host
+        # behind the Ethernet link is (port 7, virtual core 31), reached
+        # through the reply tag 0xff; a request that names another source
+        # (or does not ask for a reply) gets its answer delivered to some
+        # core of the machine - the host never sees it.
+        if not req["flags"] & 0x80 or req["src_port"] != 7 or \
+                req["src_cpu"] != 31 or req["tag"] != 0xff:
+            self.unroutable_replies += 1
+            reply = None
         self.replies[key] = reply
         return reply
 
